@@ -579,3 +579,64 @@ def cell_widths(built):
     """Per-axis float64 cell widths of the resolved grid."""
     g = built.config.resolved_grid
     return [np.diff(np.asarray(g.edges(a), dtype=np.float64)) for a in range(3)]
+
+
+# ----------------------------------------------------------------------------------------------
+# general "simulation" scenes (sources + detectors + objects + any boundary kinds)
+# ----------------------------------------------------------------------------------------------
+@st.composite
+def sim_scene_strategy(draw, pml=True, periodic=True, steps=(6, 30), shape=(6, 11), n_sources=(1, 2), n_detectors=(1, 2),
+                       material_tiers=("iso", "diag"), lossy=False, grids=("uniform", "rect"),
+                       source_kinds=("uniform_plane", "gaussian_plane", "dipole_e", "dipole_m"),
+                       detector_kinds=("field", "energy", "poynting", "phasor"), n_objects=(0, 2), exact=(True, False),
+                       require_pml=False, magnetic=True):
+    """A random open/closed scene. Plane sources get full transverse extent and sit in the background
+    material (objects are kept off plane-source cells so their faces are locally isotropic)."""
+    kinds = ["none", "pec", "pmc"] + (["pml"] if pml else []) + (["periodic"] if periodic else [])
+    sh = [draw(st.integers(*shape)) for _ in range(3)]
+    faces = draw(faces_strategy(kinds=tuple(kinds), pml_thickness=(2, 4)))
+    if require_pml and not any(f["kind"] == "pml" for f in faces.values()):
+        ax = draw(st.integers(0, 2))
+        side = draw(st.sampled_from(["min", "max"]))
+        other = "max" if side == "min" else "min"
+        faces[f"{side}_{AXNAME[ax]}"] = {"kind": "pml", "thickness": draw(st.integers(2, 4))}
+        if faces[f"{other}_{AXNAME[ax]}"]["kind"] == "periodic":
+            faces[f"{other}_{AXNAME[ax]}"] = {"kind": draw(st.sampled_from(["none", "pec", "pmc"]))}
+    # keep a usable interior
+    for ax in range(3):
+        tot = sum(faces[f"{s}_{AXNAME[ax]}"].get("thickness", 0) for s in ("min", "max")
+                  if faces[f"{s}_{AXNAME[ax]}"]["kind"] == "pml")
+        if sh[ax] - tot < 4:
+            sh[ax] = tot + 4
+    T = draw(st.integers(*steps))
+    grid = draw(grid_strategy(sh, faces, kinds=grids))
+    spec = {"shape": sh, "steps": T, "courant": draw(st.sampled_from([0.7, 0.9, 0.99])), "grid": grid, "faces": faces,
+            "background": {}, "objects": [], "sources": [], "detectors": []}
+    interior = interior_range(sh, faces)
+    ns = draw(st.integers(*n_sources))
+    plane_cells = []
+    for i in range(ns):
+        s = draw(source_strategy(sh, T, faces, kinds=source_kinds, name=f"src{i}", interior=interior))
+        spec["sources"].append(s)
+        if s["type"] in ("uniform_plane", "gaussian_plane"):
+            plane_cells.append((s["axis"], s["pos"]))
+    for i in range(draw(st.integers(*n_objects))):
+        lo, hi = draw(box_strategy(sh))
+        # keep material boxes at least one cell away from plane-source cells along the propagation axis
+        ok = True
+        for ax, p in plane_cells:
+            if lo[ax] <= p + 1 and hi[ax] >= p - 1:
+                ok = False
+        if not ok:
+            continue
+        spec["objects"].append({"name": f"box{i}", "lo": lo, "hi": hi,
+                                "material": draw(material_strategy(tiers=material_tiers, lossy=lossy, magnetic=magnetic)),
+                                "order": draw(st.integers(0, 2))})
+    for i in range(draw(st.integers(*n_detectors))):
+        spec["detectors"].append(draw(detector_strategy(sh, T, name=f"det{i}", kinds=detector_kinds, exact=exact)))
+    return spec
+
+
+def detector_arrays(arrays):
+    """{det name: {key: np.ndarray}}"""
+    return {n: {k: np.asarray(v) for k, v in st_.items()} for n, st_ in arrays.detector_states.items()}
